@@ -161,6 +161,13 @@ def _judge(bad, actor, kind, meta, scopes, caged):
         for child in meta[1:]:
             _judge(bad, actor, kind, child, scopes, caged)
         return
+    if name == "Interrupt":
+        # world programs never raise usim.py's Interrupt: this is the kernel's own wake-up signal
+        # (postpone / suspend / a notification), which its wait consumes - one that is raised
+        # *out of* a wait was delivered after the activity had left the wait it belongs to
+        bad("foreign-signal", "%s saw the kernel's wake-up signal %r (at %s): it was delivered "
+            "after the wait it belongs to had been left" % (actor, meta, kind))
+        return
     if name in API or name == "GeneratorExit":
         return
     if name == "CancelTask":
